@@ -16,6 +16,13 @@ impl FromStrHex for BigUint {
     }
 }
 
+// Parses a hex value that has to fit in a field element (all values in the annotations do).
+pub fn parse_field_value(val: &str) -> Option<BigUint> {
+    // STARK prime 2^251 + 17 * 2^192 + 1.
+    let prime = (BigUint::from(1u8) << 251) + (BigUint::from(17u8) << 192) + BigUint::from(1u8);
+    BigUint::from_str_hex(val).filter(|v| *v < prime)
+}
+
 pub fn extract_z_and_alpha(annotations: &[&str]) -> anyhow::Result<ZAlpha> {
     let re = Regex::new(
         r"V->P: /cpu air/STARK/Interaction: Interaction element #\d+: Field Element\(0x([0-9a-f]+)\)",
@@ -55,10 +62,12 @@ pub fn extract_annotations(
     for line in annotations {
         if let Some(cap) = re.captures(line) {
             let str_value = &cap[3];
-            if kind == "Field Elements" {
-                res.extend(str_value.split(',').filter_map(BigUint::from_str_hex));
-            } else if let Some(val) = BigUint::from_str_hex(str_value) {
-                res.push(val)
+            let values: Vec<&str> =
+                if kind == "Field Elements" { str_value.split(',').collect() } else { vec![str_value] };
+            for value in values {
+                res.push(parse_field_value(value).ok_or_else(|| {
+                    anyhow::anyhow!("Invalid value {:?} in annotation {:?}", value.trim(), line)
+                })?);
             }
         }
     }
